@@ -43,6 +43,10 @@ def gen_config(rng, idx, faults=True, nclients_max=1, allow_raw=True):
     cfg["opt_shuffle"] = rng.getrandbits(16) if rng.random() < 0.5 else None
     cfg["fdmode"] = rng.choice([None, None, "desc", "high"])      # descriptor numbering is the OS's business
     cfg["rr_order"] = rng.choice(["keep", "rotate", "reverse", "shuffle"]) if cfg["qtype"] in ("MX", "SRV") else "keep"
+    # scheduling latency of the programs (kernel.sched_jitter): in a third of the runs a program that has input is now and then
+    # resumed up to 3 / 15 ms late, so that one select() reports the tun device and the socket together, or several datagrams
+    jr = random.Random(cfg["rseed"] ^ 0x71773)
+    cfg["jitter"] = jr.choice([None, None, [0.3, 3000], [0.6, 15000]])
     return cfg
 
 
@@ -189,6 +193,8 @@ def run_tunnel(tag, cfg, seed, plan):
     t.why = None
     k = sim.k
     sim.fdmode = cfg.get("fdmode")
+    if cfg.get("jitter"):
+        k.sched_jitter = tuple(cfg["jitter"])
     if cfg.get("domain"):
         sim.domain = cfg["domain"]
     extra = []
